@@ -770,6 +770,10 @@ def run_shard(ctx):
             del st["qt_stack"][snap - 1:]
 
     def post_optimize(result, snap, self, loss_function, loss_function_option, algorithm_option, on_iteration_history=False):
+        # the array object the shard's shared algorithm object returned LAST (whichever step asked): the warm start of
+        # a later run hands exactly this object back to it
+        if st.get("shared_algo") is self:
+            st["warm"] = getattr(result, "value", None)
         if not on_iteration_history:
             ctx.count("optimize-without-history")
             st["opt_log"].append(None)
@@ -1046,6 +1050,13 @@ def run_shard(ctx):
                 if not fast and rng.random() < 0.3:
                     # (the fast losses never set num_var, so quara rejects an explicit start point with them: ValueError)
                     start = md.var(md.make_feasible(refopt.random_physical(t, B, d, m, rng)))
+                st["shared_algo"] = shared.get("pgdb")
+                warm = st.get("warm")
+                if (not fast and reuse and start is None and warm is not None and np.shape(warm) == (md.nv,)
+                        and np.all(np.isfinite(warm)) and rng.random() < 0.6):
+                    # warm start: the very array object the shared algorithm object returned last (other data then)
+                    start = warm
+                    ctx.count("pgdb:warm-start-from-the-array-returned-last")
                 kw = dict(mode_stopping_criterion_gradient_descent=mode, num_history_stopping_criterion_gradient_descent=h,
                           max_iteration_optimization=MAX_ITER_BY_MODE.get(mode, MAX_ITER), gamma=gamma, mu=mu, var_start=start)
                 if eps is not None:
@@ -1067,6 +1078,7 @@ def run_shard(ctx):
                                    "random_start": start is not None, "shots": N, "message": str(res)[:200]})
                     continue
                 ctx.count("pgdb-estimates")
+                st["shared_algo"] = shared.get("pgdb")
                 if len(st["runs"]) == n0 + 1:
                     hd.update(res=res, rec=st["runs"][-1])
                     held.append(hd)
